@@ -13,6 +13,7 @@ import (
 	"encoding/json"
 	"fmt"
 	"os"
+	"strings"
 
 	"github.com/quay/claircore/verifharness/internal/ctrl"
 	"github.com/quay/claircore/verifharness/internal/hx"
@@ -99,6 +100,8 @@ func genScenario(rnd *hx.Rand) scenario {
 type checker struct {
 	r *hx.Run
 	s *ctrl.Session
+
+	nfaulty int
 }
 
 // setup brings a fresh world to the state before the attempt under test.
@@ -156,13 +159,13 @@ func (c *checker) attempt(sc scenario, script ctrl.Script, dead bool) ctrl.Resul
 }
 
 // retry runs the clean attempt after faulty ones and checks convergence.
-func (c *checker) retry(sc scenario, history string, scannedBefore bool, commitErrAtFinish bool) {
+func (c *checker) retry(sc scenario, history string, scannedBefore bool, commitErrAtFinish bool) bool {
 	res := c.s.Index(sc.M, ctrl.Script{}, false)
 	cold := c.s.Cold(sc.Cfg, sc.M)
 	wit := fmt.Sprintf("%s after [%s] clean retry => %s ; fault-free run on a fresh store => %s", sc, history, res.Line(), cold.Line())
 	if res.Hang || res.Panic {
 		c.r.Fail("", "retry did not return normally: "+wit)
-		return
+		return false
 	}
 	ok := res.ErrClass == "nil" && res.Success && res.State == "IndexFinished" && !res.ErrSet && res.Body == cold.Body &&
 		res.Scanned && res.Stored == "1,IndexFinished,0,"+cold.Body
@@ -173,6 +176,34 @@ func (c *checker) retry(sc scenario, history string, scannedBefore bool, commitE
 			cls = FindingClobber
 		}
 		c.r.Fail(cls, "retry after a failure does not complete with the fault-free report: "+wit)
+	}
+	for _, b := range c.s.CheckStore() {
+		c.r.Fail("", b+": "+wit)
+	}
+	return ok
+}
+
+// deleteRetry deletes the manifest and indexes it again: whatever the faulty
+// attempts left behind (the state of finding report-clobbered included), the
+// result must be the fault-free report, with no exception.
+func (c *checker) deleteRetry(sc scenario, history string) {
+	out := c.s.Delete([][]int{sc.M})
+	res := c.s.Index(sc.M, ctrl.Script{}, false)
+	cold := c.s.Cold(sc.Cfg, sc.M)
+	wit := fmt.Sprintf("%s after [%s] DeleteManifests => %s ; clean index => %s ; fault-free run on a fresh store => %s", sc, history, out, res.Line(), cold.Line())
+	c.r.Case("delete-retry "+sc.String()+" "+history, true)
+	c.r.Count("delete-retry")
+	if res.Hang || res.Panic {
+		c.r.Fail("", "index after delete did not return normally: "+wit)
+		return
+	}
+	if !strings.HasPrefix(out, "del="+ctrl.LayersString(sc.M)+" ") {
+		c.r.Fail("", "DeleteManifests did not report the manifest as deleted: "+wit)
+	}
+	ok := res.ErrClass == "nil" && res.Success && res.State == "IndexFinished" && !res.ErrSet && res.Body == cold.Body &&
+		res.Scanned && res.Stored == "1,IndexFinished,0,"+cold.Body && res.Trace != "MGR"
+	if !ok {
+		c.r.Fail("", "index after DeleteManifests does not complete with the fault-free report: "+wit)
 	}
 	for _, b := range c.s.CheckStore() {
 		c.r.Fail("", b+": "+wit)
@@ -208,10 +239,14 @@ func (c *checker) faulty(sc scenario, scripts []ctrl.Script, dead bool) {
 		}
 		c.r.Case("attempt "+sc.String()+" "+script.String(), true)
 	}
-	c.retry(sc, hist, scannedBefore, commitAtFinish)
+	ok := c.retry(sc, hist, scannedBefore, commitAtFinish)
 	if !c.s.Lost {
 		// once more: the result of a completed index is stable
 		c.retry(sc, hist+"+retry", scannedBefore, commitAtFinish)
+	}
+	c.nfaulty++
+	if !c.s.Lost && (!ok || c.nfaulty%5 == 0) {
+		c.deleteRetry(sc, hist+"+retries")
 	}
 }
 
